@@ -31,6 +31,7 @@ class Undecidable(Exception):
 
 _PARSED = {}
 _VALUES = {}
+_FIRST = set()
 
 
 def idx_value(state):
@@ -125,6 +126,18 @@ def aeval(e, env, depth=0):
         if isinstance(e.op, ast.Mult):
             return a * b
         raise Undecidable('operator in %s' % t[:60])
+    if isinstance(e, ast.Compare) and len(e.ops) == 1 and isinstance(e.ops[0], (ast.Is, ast.IsNot)) and _FIRST:
+        def canon_first(x):
+            t_ = norm(x)
+            for nm_ in _FIRST:
+                t_ = re.sub(r'^(self\.conn\[[01]\])\.%s(\(\))?$' % re.escape(nm_), r'\1.list[0][0]', t_)
+            return t_
+        if canon_first(e.left) != norm(e.left) or canon_first(e.comparators[0]) != norm(e.comparators[0]):
+            e = ast.Compare(left=ast.parse(canon_first(e.left), mode='eval').body, ops=e.ops,
+                            comparators=[ast.parse(canon_first(e.comparators[0]), mode='eval').body])
+            t = norm(e)
+            if t in env:
+                return env[t]
     if isinstance(e, ast.Compare) and len(e.ops) == 1 and isinstance(e.ops[0], (ast.Is, ast.IsNot)) and \
        norm(e.left) in env.get('_objs', {}) and norm(e.comparators[0]) in env.get('_objs', {}):
         # identity of the objects the two ends are joined to
@@ -258,6 +271,15 @@ def creation_model(ctx):
         return cache
     from ..symx import SymExec
     f = ctx.func(CC)
+    # names under which Connected_Geobj hands out the object that was linked first (`first`, `first_geobj()`): a
+    # method / property whose returned value is `self.list[0][0]`
+    _FIRST.clear()
+    cg_ = ctx.model.classes.get('Connected_Geobj')
+    for nm_, g_ in (cg_.methods.items() if cg_ is not None else []):
+        rets_ = [x_ for x_ in ast.walk(g_.node) if isinstance(x_, ast.Return) and x_.value is not None]
+        if rets_ and norm(rets_[-1].value) == 'self.list[0][0]' and all(
+                norm(x_.value) in ('self.list[0][0]', 'None') for x_ in rets_) and len(g_.params) == 1:
+            _FIRST.add(nm_)
     # helpers that (with everything they call on self) neither create pulses nor touch end_segs /
     # the pulse lists do not matter for this model (the end matching): not looked into
     from ..rules import self_closure
